@@ -1,17 +1,20 @@
 SPECIFICATION Spec
 CONSTANTS MaxDepth = 3
-  Families <- FamQuick
+  Families <- FamQuickAll
   StoreByCopy = TRUE
   TailKeepsSets = TRUE
   SplitContinues = TRUE
   SkipEmpty = TRUE
   SplitCachesExport = FALSE
   SrcFRepass = TRUE
+  MFRunCopies = TRUE
+  AlterApplied = FALSE
 INVARIANT SeenIsExpected
 INVARIANT PrefixOnly
 INVARIANT SiblingIndependent
 INVARIANT RootExpected
 INVARIANT NoLeakToRuntime
+INVARIANT Repeatable
 PROPERTY Causal
 PROPERTY PeekIsPure
 PROPERTY RunKeepsStatic
